@@ -554,6 +554,18 @@ let existing_ops (wits : string) : string list =
         | PGen (_, _) -> []) w.w_fields)
   | _ -> []
 
+(* another spelling of the same data item: parse the bytes generically, print them with a loud noise *)
+let reencodings : noise list = [ { quiet with widen = 60 }; { quiet with untag = 100 }; { quiet with indef = 35 };
+                                 { quiet with chunk = 50 }; { widen = 30; indef = 20; chunk = 20; shuffle = 0; untag = 50 }; quiet ]
+let reencode (nz : noise) (s : string) : string option =
+  match parse_exact (bytes_of_string s) with
+  | Ok it -> let r = nstr nz it in if r = s then None else Some r
+  | _ -> None
+let reencode_any (s : string) : string option =
+  let rec go k = if k = 0 then None else
+      match reencode (List.nth reencodings (below (List.length reencodings))) s with Some r -> Some r | None -> go (k - 1) in
+  go 4
+
 (* operations; [cur] = the bytes the hash is taken over at this point *)
 let gen_ops ?(wits : string = "") (body : string) (sign_ok : bool) : string list =
   let existing = if wits = "" then [] else existing_ops wits in
@@ -585,9 +597,13 @@ let gen_ops ?(wits : string = "") (body : string) (sign_ok : bool) : string list
         [Printf.sprintf "sd:%s:%s" (hex_of_string key) (hex_of_string !cur)]
       | 17 | 18 ->
         (* set_body with a body the library accepts (canonical, possibly followed by a stray byte), then keep signing *)
-        let b = (match !body_pool with [] -> body | l -> List.nth l (below (List.length l))) in
-        let b = if chance 15 then b ^ "\x00" else b in
-        cur := b; [Printf.sprintf "sb:%s" (hex_of_string b)]
+        (* ... or with ANOTHER ENCODING of the body it holds now: the kept bytes and the hash must follow the new bytes *)
+        (match (if chance 45 then reencode_any !cur else None) with
+         | Some r -> cur := r; [Printf.sprintf "sb:%s" (hex_of_string r)]
+         | None ->
+           let b = (match !body_pool with [] -> body | l -> List.nth l (below (List.length l))) in
+           if chance 15 then [Printf.sprintf "sb:%s" (hex_of_string (b ^ "\x00"))]       (* a stray byte: rejected *)
+           else begin cur := b; [Printf.sprintf "sb:%s" (hex_of_string b)] end)
       | _ -> [Printf.sprintf "sb:%s" (junk_hex (1 + below 5))]))          (* junk: rejected, nothing changes *)
 
 let gen_tx_parts () : string * string * string * string option * noise =
@@ -687,6 +703,15 @@ let fixed_cases () : string list =
       tx b "\xa0" "\xf7"; tx b "\xa0" "\xf5\xf7"; tx b "\xa0" "\xf5"; tx b "\xa0" "\xf8\x20\xf6"; tx b "\xa0" "\xfc\xf6";
       "tx " ^ hex_of_string ("\x9f" ^ b ^ "\xa0\xf5\xf6"); "tx " ^ hex_of_string ("\x9f" ^ b ^ "\xa0\xf5\xf6\xf6");
       "tx " ^ hex_of_string ("\x9f" ^ b ^ "\xa0\xff");
+      tx b "\xa0" "\xf5\x9f\xa0\x80\xff"; tx b "\xa0" "\xf5\x9f\xa0\x80\xff" ^ " " ^ av; "tx " ^ hex_of_string ("\x83" ^ b ^ "\xa0\x9f\xa0\x80\xff");
+      "tx " ^ hex_of_string ("\x9f" ^ b ^ "\xbf\xff\xf5\x9f\xbf\xff\x9f\xff\xff\xff"); "tx " ^ hex_of_string ("\x9f" ^ b ^ "\xa0\x9f\xa0\x80\xff\xff");
+      tx b "\xa0" "\xf5\xbf\x01\x02\xff"; tx b "\xa0" "\xf5\xd9\x01\x03\xbf\x00\xbf\xff\x01\x9f\xff\xff";
+      tx b "\xa0" "\xf5\x9f\xa0\x80\xff" ^ " sx:9fa080ff"; tx b "\xa0" "\xf5\xf6" ^ " sx:9fa080ff sx:82a080 sx:9fa080";
+      (* set_body with another encoding of the same body *)
+      tx tiny_body "\xa0" "\xf5\xf6" ^ " sb:" ^ hex_of_string tiny_body_tagged;
+      tx tiny_body "\xa0" "\xf5\xf6" ^ " sb:a318008018018018021800"; tx tiny_body "\xa0" "\xf5\xf6" ^ " sb:a3009fff01800200";
+      tx tiny_body "\xa0" "\xf5\xf6" ^ " sb:bf00800180" ^ "0200ff"; tx tiny_body "\xa0" "\xf5\xf6" ^ " sb:a3018000800200";
+      tx b "\xa1\x00\x80" "\xf5\xa1\x01\x02" ^ " sw:a1009fff sx:a1180102 vl:1 sw:bf0080ff";
       "txb " ^ hex_of_string b ^ " " ^ av ^ " " ^ ab; "txb " ^ hex_of_string (b ^ "\x00") ^ " " ^ av;
       "txn " ^ hex_of_string b ^ " a0 1 ~ " ^ av; "txn " ^ hex_of_string b ^ " a10080 0 a0 " ^ ab;
       "txn " ^ hex_of_string b ^ " " ^ hex_of_string ("\xa1\x00\x81" ^ vkw) ^ " 1 a10102 " ^ av;
@@ -859,6 +884,47 @@ let gen_mode seed tier out =
           let vh, vc = (match below 6 with 0 -> ("\x9f", "\xff") | 1 -> ("\x98\x02", "") | 2 -> ("\x83", "") | _ -> ("\x82", "")) in
           Printf.fprintf oc "vblk %s %s\n" (hex_of_string (vh ^ era ^ blk ^ vc)) (hex_of_string hdr_s))
      | _ -> ())
+  done;
+  (* stream 3d: every setter given ANOTHER ENCODING of the value the transaction already holds (equal as a value,
+     different as bytes): the raw parts, the serialized transaction and the hash must follow the new bytes *)
+  for i = 1 to 40 * scale do
+    let (body, wits, valid, aux, _) = gen_tx_parts () in
+    let aux = (match aux with None when chance 50 -> Some (gen_aux quiet 2) | x -> x) in
+    let txs = "\x84" ^ body ^ wits ^ valid ^ (match aux with Some a -> a | None -> "\xf6") in
+    let nz = List.nth reencodings (i mod (List.length reencodings - 1)) in
+    let ops = ref [] and cur = ref body in
+    (match reencode nz body with Some r -> cur := r; ops := !ops @ [Printf.sprintf "sb:%s" (hex_of_string r)] | None -> ());
+    if chance 70 then ops := !ops @ [Printf.sprintf "sv:%s:%s" (rand_hex 32) (hex_of_string !cur)];
+    (match aux with Some a -> (match reencode nz a with Some r -> ops := !ops @ [Printf.sprintf "sx:%s" (hex_of_string r)] | None -> ()) | None -> ());
+    (match reencode nz wits with Some r -> if chance 60 then ops := !ops @ [Printf.sprintf "sw:%s" (hex_of_string r)] | None -> ());
+    ops := !ops @ [Printf.sprintf "vl:%d" (if valid = "\xf5" then 1 else 0)];
+    (match (if chance 40 then reencode_any !cur else None) with
+     | Some r -> cur := r; ops := !ops @ [Printf.sprintf "sb:%s" (hex_of_string r); Printf.sprintf "si:%s:%s" (rand_hex 16) (hex_of_string r)] | None -> ());
+    Printf.fprintf oc "tx %s %s\n" (hex_of_string txs) (String.concat " " !ops)
+  done;
+  (* stream 3e: indefinite-length spellings of every auxiliary-data layout (metadata map, [metadata, scripts] array,
+     tag-259 map), of the transaction array and of the witness map, in every frame *)
+  let found = Array.make 3 0 and tries = ref 0 in
+  while (found.(0) < 4 * scale || found.(1) < 4 * scale || found.(2) < 4 * scale) && !tries < 400 * scale do
+    incr tries;
+    let it = gen_item (auxiliaryData depth) (1 + below 3) in
+    let kind = (match it with IMap (_, _) -> 0 | IArray (_, _) -> 1 | _ -> 2) in
+    if found.(kind) < 4 * scale then begin
+      found.(kind) <- found.(kind) + 1;
+      let top_indef = (match it with
+          | IMap (_, kvs) -> IMap (false, kvs) | IArray (_, xs) -> IArray (false, xs)
+          | ITag (t, IMap (_, kvs)) -> ITag (t, IMap (false, kvs)) | x -> x) in
+      let variants = [ nstr quiet top_indef; nstr { quiet with indef = 100 } it; nstr { quiet with indef = 50; widen = 30 } top_indef ] in
+      List.iter (fun a ->
+          let body = gen_body quiet 1 in
+          let wits = (match below 3 with 0 -> "\xa0" | 1 -> "\xbf\xff" | _ -> gen_wits { quiet with indef = 100 } 2) in
+          let frames = [ ("\x84", "\xf5", ""); ("\x9f", "\xf4", "\xff"); ("\x83", "", ""); ("\x9f", "", "\xff") ] in
+          let (h, v, c) = List.nth frames (below 4) in
+          let ops = (match below 3 with 0 -> [] | 1 -> [Printf.sprintf "sv:%s:%s" (rand_hex 32) (hex_of_string body)]
+                                  | _ -> [Printf.sprintf "sx:%s" (hex_of_string a)]) in
+          Printf.fprintf oc "tx %s %s\n" (hex_of_string (h ^ body ^ wits ^ v ^ a ^ c ^ (if chance 20 then "\x00" else ""))) (String.concat " " ops);
+          if chance 30 then Printf.fprintf oc "txn %s a0 1 %s\n" (hex_of_string body) (hex_of_string a)) variants
+    end
   done;
   (* stream 4: datums *)
   for i = 1 to 160 * scale do
